@@ -249,7 +249,7 @@ func genRrCase(r *Rand, nFields int, acPct int, hintPct int, nOps int, nScanners
 	return c
 }
 
-const rrRule = "seeded roaring cases: 1..5 configured fields (0 fields rarely), document sets as in C01 with ids up to +-(2^55-1), operation sequences over 1..4 scanners sharing one index (Reset, WithHint with known/unknown/out-of-range ids, Retrieve, RetrieveDocs, GetRawResult, also without Reset in between; a third more cases with failing retrievals (unsupported value on one field) injected on other scanners); non-trivial = some retrieval returns a non-empty proper subset of the accepted documents; distinct = distinct input"
+const rrRule = "seeded roaring cases: 1..5 configured fields (0 fields rarely), document sets as in C01 with ids up to +-(2^55-1), operation sequences over 1..4 scanners sharing one index (Reset, WithHint with known/unknown/out-of-range ids, Retrieve, RetrieveDocs, GetRawResult, also without Reset in between; a third more cases over a pattern-container field; a third more cases with failing retrievals (unsupported value on one field) injected on other scanners); non-trivial = some retrieval returns a non-empty proper subset of the accepted documents; distinct = distinct input"
 
 func init() {
 	mk := func(hintPct int, zeroFields bool) func(tier string, r *Rand, add func(in interface{})) {
@@ -287,6 +287,20 @@ func init() {
 					nf = 0
 				}
 				add(genRrCase(r, nf, 0, hintPct, 6+r.Intn(20), 1+r.Intn(4)))
+			}
+			// pattern-container fields next to default ones (keyword sets with overlaps, include and exclude
+			// keywords of different conjunctions, texts containing several keywords)
+			for i := 0; i < n/3; i++ {
+				docs, qs := acDocsQueries(r, i%4 == 0)
+				c := rCase{Fields: []rField{{F: 0, Cont: "default"}, {F: 1, Cont: "ac_matcher"}}, Docs: docs}
+				for j, q := range qs {
+					c.Ops = append(c.Ops, rOp{S: 0, Op: "reset"})
+					if r.Chance(hintPct) && len(docs) > 0 {
+						c.Ops = append(c.Ops, rOp{S: 0, Op: "hint", Hint: []int64{docs[r.Intn(len(docs))].ID, docs[0].ID}})
+					}
+					c.Ops = append(c.Ops, rOp{S: 0, Op: []string{"retrieve", "docs"}[j%2], A: q.A}, rOp{S: 0, Op: "raw"})
+				}
+				add(c)
 			}
 			// histories with failing retrievals (an unsupported value on one field) on other scanners in between:
 			// reset, fresh and hinted scanners must answer as before
